@@ -1,5 +1,5 @@
 """driver `dimdist_mask` vs tn.dimension_distribution(t, mask=..., order=..., marginals=...) and vs a dense brute-force oracle.
-run: cd /verif/harness && /venv/bin/python -W ignore /root/scratch/lean_M/scratch_tests/test_dimdist_mask.py [seed] [n]"""
+run: cd /verif/harness && /venv/bin/python -W ignore batteries/c09_dimdist_mask.py [seed] [n]"""
 DRV = __import__("os").environ.get("VERIF_DRIVER") or __import__("os").path.join(__import__("os").path.dirname(__import__("os").path.dirname(__import__("os").path.dirname(__import__("os").path.abspath(__file__)))), "lean", ".lake", "build", "bin", "driver")
 import sys, random, subprocess, time, itertools
 sys.path.insert(0, __import__("os").path.dirname(__import__("os").path.dirname(__import__("os").path.abspath(__file__))))
